@@ -1,6 +1,6 @@
 SPECIFICATION Spec
 CONSTANTS
-  Names = {"a", "b", "c", "d", "e", "f", "g", "h", "ab", "abc", "a/b", "b ", "uni", ""}
+  Names = {"a", "b", "c", "d", "e", "f", "g", "h", "ab", "abc", "a/b", "b ", "uni", "MUNI", ""}
   BaseLens = {0, 1, 19, 20, 21, 47, 48, 49, 150}
   Align = {}
   EndAlign = {}
